@@ -44,6 +44,7 @@ package lease_set
 // C01: re-serialising an accepted LeaseSet reproduces the bytes it was parsed
 // from (ReadLeaseSet returns no remainder: it consumes up to the end of the
 // signature and ignores what follows).
+//@ option C01_ReadLeaseSet_T nocontract LeaseSet.Bytes
 //@ lemma C01_ReadLeaseSet_T(data []byte) {
 //@   ls, err := ReadLeaseSet(data)
 //@   if err == nil {
